@@ -2,6 +2,7 @@ import PcfgVerif.Properties.DetectCoreA
 import PcfgVerif.Properties.DetectCoreB
 import PcfgVerif.Properties.DetectCoreC
 import PcfgVerif.Lemmas.DetectD2
+import PcfgVerif.Lemmas.CountersLemmas
 /-!
 # C05 — training segments every password into a lossless, soundly typed tiling
 
@@ -179,6 +180,31 @@ theorem goodA_ascii (pw : CPs) : GoodA asciiC pw := by
     · simp only [hx, if_false]
 
 example : (parse asciiC {} exTable (cpsOfString "12PassWord!x9")).others = [cpsOfString "!"] := by decide +kernel
+
+/-- **the length-indexed counters are tallies**: after any sequence of `_update_counter_len_indexed` calls (one per password and
+category: alpha words, masks, digits, other, keyboard walks) on an initially empty counter dict, the Counter filed under length
+`n` counts exactly the items of length `n` — each as often as it occurred in all calls together — and nothing of another length;
+there is one Counter per length.  (`calls.flatten` = all items in the order the parser met them.) -/
+theorem C05_len_indexed_counters (calls : List (List CPs)) (n : Nat) (y : CPs) :
+    ((calls.foldl updateLenIndexed []).get n).count y = (if y.length = n then calls.flatten.count y else 0) ∧
+    ((calls.foldl updateLenIndexed []).map (·.1)).Nodup := by
+  have hfold : ∀ (d : LenCtr), calls.foldl updateLenIndexed d = updateLenIndexed d calls.flatten := by
+    induction calls with
+    | nil => intro d; rfl
+    | cons c rest ih =>
+      intro d
+      rw [List.foldl_cons, ih, List.flatten_cons]
+      unfold updateLenIndexed
+      rw [List.foldl_append]
+  rw [hfold]
+  refine ⟨?_, update_keys_nodup [] _ (by simp)⟩
+  rw [update_count]
+  simp [get_nil, count_nil]
+
+/-- non-vacuity / illustration: `sun12tiger345` first (two new lengths per category in one call), then `sun`, `12` again -/
+example : (([[cpsOfString "sun", cpsOfString "tiger"], [cpsOfString "sun"]].foldl updateLenIndexed []).get 3).count (cpsOfString "sun") = 2 ∧
+    (([[cpsOfString "sun", cpsOfString "tiger"], [cpsOfString "sun"]].foldl updateLenIndexed []).get 5).count (cpsOfString "sun") = 0 := by
+  decide
 
 /-- table facts the detectors rely on -/
 theorem C05_tables : Generated.Tables.minKeyboardRun = 4 ∧
